@@ -6,11 +6,12 @@ function samlangGeneratedWebAssemblyLoader(bytes, builtinsPatch = () => ({})) {
   function gcArrayToString(arr) {
     if (!instance) throw new Error('Instance not initialized');
     const len = instance.exports.__strLen(arr);
-    const codes = [];
+    // Strings are arrays of UTF-8 bytes.
+    const bytes = new Uint8Array(len);
     for (let i = 0; i < len; i++) {
-      codes.push(instance.exports.__strGet(arr, i));
+      bytes[i] = instance.exports.__strGet(arr, i);
     }
-    return String.fromCharCode(...codes);
+    return new TextDecoder().decode(bytes);
   }
 
   const builtins = {
